@@ -1,6 +1,9 @@
 #!/bin/bash
-# usage: seed_eval.sh <worktree> <property> <seed-name>   — confirm a seeded change and run the check against it
-wt=$1; prop=$2; name=$3
+# usage: seed_eval.sh <worktree> <property> <seed-name> [--live]
+# confirm a seeded change (tests pass with it, demo fails with it and passes without it) and run the check against it.
+# By default the check runs against a scratch copy of /repo with the patch applied (A5_REPO=<copy>), so that nothing else running on this
+# machine (vp run, background sweeps) ever sees a patched /repo; --live applies the patch to /repo itself and undoes it afterwards.
+wt=$1; prop=$2; name=$3; live=${4:-}
 set -u
 out=/verif/seeded/$name
 mkdir -p $out
@@ -8,7 +11,6 @@ cp $wt/patch.diff $out/patch.diff
 cp $wt/demo.py $out/demo.py 2>/dev/null
 cp $wt/notes.txt $out/notes.txt 2>/dev/null
 cd $wt
-# 1. tests with the change
 git diff --quiet -- a5 && { echo "patch not applied in worktree"; git apply patch.diff; }
 tests=$(/venv/bin/python -m pytest -q -p no:cacheprovider 2>&1 | tail -1)
 PYTHONPATH=$wt /venv/bin/python demo.py >/dev/null 2>&1; demo_with=$?
@@ -16,17 +18,25 @@ git apply -R patch.diff
 PYTHONPATH=$wt /venv/bin/python demo.py >/dev/null 2>&1; demo_without=$?
 git apply patch.diff
 echo "tests_with_change: $tests | demo rc with=$demo_with without=$demo_without"
-# 2. run the check against it
-cd /repo && git apply $out/patch.diff || { echo "cannot apply to /repo"; exit 1; }
 cd /verif
-res=$(./check $prop quick 2>&1 | grep -E "VIOLATION|^$prop quick" | head -3)
-rc=$?
-cd /repo && git checkout -- . && cd /verif
+if [ "$live" = "--live" ]; then
+  (cd /repo && git apply $out/patch.diff) || { echo "cannot apply to /repo"; exit 1; }
+  res=$(./check $prop quick 2>&1 | grep -E "VIOLATION|^$prop quick" | head -3)
+  (cd /repo && git checkout -- .)
+  how="./check $prop quick with the patch applied to /repo, then git checkout"
+else
+  copy=$(mktemp -d /tmp/seedrepo.XXXXXX)
+  cp -r /repo/. $copy/
+  (cd $copy && git apply $out/patch.diff) || { echo "cannot apply to the copy"; rm -rf $copy; exit 1; }
+  res=$(A5_REPO=$copy ./check $prop quick 2>&1 | grep -E "VIOLATION|^$prop quick" | head -3)
+  rm -rf $copy
+  how="A5_REPO=<scratch copy of /repo with the patch applied> ./check $prop quick (copy removed afterwards)"
+fi
 /venv/bin/python tools/gen_tables.py >/dev/null
 echo "$res"
 python3 - <<PY
 import json
 json.dump({"property":"$prop","breaks":"see notes.txt","tests_with_change":"""$tests""","demo_rc_with_change":$demo_with,"demo_rc_without_change":$demo_without,
- "ran":["pytest in a scratch worktree with the change","demo.py with and without the change","./check $prop quick with the patch applied to /repo, then git checkout"],
+ "ran":["pytest in a scratch worktree with the change","demo.py with and without the change","$how"],
  "check_output":"""$res"""}, open("$out/meta.json","w"), indent=1)
 PY
